@@ -97,6 +97,17 @@ def config_menu():
     return m
 
 
+def distinguishable(kw):
+    """A merged configuration is only meaningful when a request can be routed: different verbs, or URIs none of which
+    is a prefix of the other side's."""
+    vg, vp = kw.get("verb_get", b"GET"), kw.get("verb_post", b"POST")
+    if vg != vp:
+        return True
+    get_uris = kw.get("domains", b"c2.example.com,/ptj,c3.example.com,/load").split(b",")[1::2]
+    sub = kw.get("submit_uri", b"/submit.php")
+    return not any(sub.startswith(u) or u.startswith(sub) for u in get_uris)
+
+
 def plan(tier, seed):
     ch = []
     for name, kw in config_menu():
@@ -113,6 +124,8 @@ def plan(tier, seed):
             for n2, k2 in menu[i + 1 :]:
                 if n1.split(":")[0] == n2.split(":")[0] or n1 == "default":
                     continue
+                if not distinguishable({**k1, **k2}):
+                    continue  # (stated assumption: check-ins and callbacks differ in verb or in URI prefix)
                 ch.append({"key": f"pair/{n1}+{n2}", "kind": "pair", "a": n1, "b": n2, "cost": 30})
     return ch
 
